@@ -159,6 +159,11 @@ def get_market_balance(self):
             d += value * round_decimal(row.delta, self.decimal)
             g += value * round_decimal(row.gamma, self.decimal)
         self._balance_cache = OptionMarketBalance(self.balance + premium, self.balance, premium, d, g)
+    elif self._balance_cache is None:
+        self._balance_cache = OptionMarketBalance(self.balance, self.balance, Decimal(0), Decimal(0), Decimal(0))
+    elif self._balance_cache.balance != self.balance:
+        kept = self._balance_cache
+        self._balance_cache = OptionMarketBalance(kept.premium + self.balance, self.balance, kept.premium, kept.delta, kept.gamma)
     return self._balance_cache
 '''
 
@@ -373,7 +378,7 @@ def run(model, tier="quick"):
                   "sell: rejected unless n <= held; cash += sum(price*size)-fee; book := displayed bids - fills; "
                   "position -= n, removed at zero; action record", fx, opaque=OPAQUE)
     formula_check(res, model, "DeribitOptionMarket.get_market_balance", REF_BALANCE,
-                  "equity = cash + sum(amount * mark) on open bars (previous value on closed bars)",
+                  "equity = cash + sum(amount * mark) on open bars; on closed bars the last option valuation plus the CURRENT cash",
                   opaque=["round_decimal", "_is_open"])
     fill_loop_shape(model, res)
     n = isolation_rule(model, res)
